@@ -45,7 +45,7 @@ func (v Val) Go() interface{} {
 	case "float64":
 		return v.F
 	case "string":
-		return v.S
+		return shapes.RawBytes(v.S)
 	case "time":
 		return time.Unix(0, v.I).UTC()
 	case "nil":
@@ -70,7 +70,9 @@ var (
 	f32s = []float64{0, 1, -1, float64(float32(0.1)), float64(float32(-2.5)), math.MaxFloat32, -math.MaxFloat32, math.SmallestNonzeroFloat32}
 	f64s = []float64{0, math.Copysign(0, -1), 1, -1, 0.1, 0.5, -2.5, 3.141592653589793, 1 << 53, 1<<53 + 2, 5e-324, 1e-320, math.MaxFloat64, -math.MaxFloat64, 1e21, 123456789.123456789}
 	strs = []string{"", "a", "A", "b", "B", "ab", "Ab", "aB", "AB", "abc", "ABC", "Abc", "z", "Z", "a b", "0", "10", "9",
-		"ß", "ẞ", "İ", "ı", "i", "I", "ǅ", "ǆ", "Ǆ", "Σ", "σ", "ς", "é", "É", "é", "k", "K", "K", "x.y", "a<b>&c", "日本", "q\"uote", "back\\slash"}
+		"ß", "ẞ", "İ", "ı", "i", "I", "ǅ", "ǆ", "Ǆ", "Σ", "σ", "ς", "é", "É", "é", "k", "K", "K", "x.y", "a<b>&c", "日本", "q\"uote", "back\\slash",
+		// U+E0xx stands for the raw byte 0xxx (shapes.RawBytes): strings that are not valid UTF-8
+		"caf\uE0E9", "\uE0FF\uE0FE", "a\uE0C3"}
 	times = []int64{0, 1, -1, 1000000000, 1700000000123456789, 1700000000123456790, 1700000000123456788, 1700000000000000000,
 		-1000000000000000000, math.MaxInt64, math.MaxInt64 - 1, math.MinInt64 + 1, 1 << 53, 1<<53 + 1}
 	raws = []string{"r1", "r2", " r1 ", "bad", "bad2", " bad3", "R1", "ok", "BAD"}
